@@ -17,6 +17,8 @@ import JubakoModel.Model.DirWriter
 import JubakoModel.Model.Search
 import JubakoModel.Model.View
 import JubakoModel.Model.Pack
+import JubakoModel.Model.Order
+import JubakoModel.Model.DirLayout
 import JubakoModel.Generated.FuncsBytes
 import JubakoModel.Generated.FuncsContent
 import JubakoModel.Generated.FuncsDir
@@ -25,6 +27,18 @@ import JubakoModel.Generated.FuncsView
 import JubakoModel.Generated.FuncsCheck
 
 open Jubako
+
+/-- the source-side value of a model property (copy of `RawProp.toSrc` of Lemmas/FuncsDir.lean, which this
+    script cannot import) -/
+def Jubako.RawProp.toSrcD (p : RawProp) : Option Generated.SrcProperty :=
+  match p.kind with
+  | .padding => some (.padding p.size)
+  | .variantId => some (.variantId p.name)
+  | .uint sz dflt => some (.unsignedInt sz dflt p.name)
+  | .sint sz dflt => some (.signedInt sz dflt p.name)
+  | .content ps cs dflt => some (.contentAddress cs ps dflt p.name)
+  | .array lenSize fixedLen dep _ => some (.array lenSize fixedLen dep p.name)
+  | .deportedInt _ _ _ _ => none
 
 def grid : List Nat :=
   [0, 1, 2, 3, 4, 37, 38, 39, 127, 128, 255, 256, 257, 4094, 4095, 4096, 65535, 65536, 65537, 16777215, 16777216,
@@ -41,6 +55,8 @@ def cmp1 {α β} [ToString α] [ToString β] [BEq β] (name : String) (inputs : 
   | none => IO.println s!"same {name} {inputs.length}"
 
 def ordOf (n : Nat) : Ordering := if n % 3 = 0 then .lt else if n % 3 = 1 then .eq else .gt
+
+instance : ToString RawProp := ⟨fun p => reprStr p⟩
 
 instance : ToString Ordering := ⟨fun o => match o with | .lt => "lt" | .eq => "eq" | .gt => "gt"⟩
 
@@ -115,6 +131,24 @@ def main : IO Unit := do
       ((if x.1 then Generated.indexedStoreTailWrites s.values s.dataSize else Generated.plainStoreTailWrites s.dataSize).map
         (fun p => leBytes p.1 p.2)).flatten)
     (fun x => (VStore.mk x.1 (x.2.map (fun n => List.replicate n (7 : UInt8)))).tailBytes)
+  let ixIn : List (Nat × Nat × Nat × Nat) := [0, 1, 255, 65536, 4294967295].flatMap fun a => [0, 7].flatMap fun b => [0, 300].flatMap fun c => [0, 3, 255].map fun k => (a, b, c, k)
+  cmp1 "indexTailWrites" ixIn
+    (fun x => ((Generated.indexTailWrites x.1 x.2.1 x.2.2.1 [1, 2, 3, 4] x.2.2.2 [109, 97, 105, 110]).map (fun p => leBytes p.1 p.2)).flatten)
+    (fun x => (IndexInfo.mk x.1 x.2.1 x.2.2.1 [1, 2, 3, 4] x.2.2.2 [109, 97, 105, 110]).encode)
+  let ords : List Ordering := [.lt, .eq, .gt]
+  let cmpIn : List (Ordering × Nat × Nat × Nat × Nat) := ords.flatMap fun o => [0, 1, 5].flatMap fun a => [0, 1, 5].flatMap fun b => [0, 2].flatMap fun c => [0, 2, 9].map fun d => (o, a, b, c, d)
+  cmp1 "writerArrayCmp" cmpIn (fun x => Generated.writerArrayCmp x.1 x.2.1 x.2.2.1 x.2.2.2.1 x.2.2.2.2)
+    (fun x => x.1.then ((compare x.2.1 x.2.2.1).then (compare x.2.2.2.1 x.2.2.2.2)))
+  let props : List RawProp :=
+    [⟨1, [], .padding⟩, ⟨16, [], .padding⟩, ⟨1, [118], .variantId⟩, ⟨1, [120], .uint 1 none⟩, ⟨0, [120], .uint 8 (some 72057594037927936)⟩,
+     ⟨3, [121], .sint 3 none⟩, ⟨0, [121], .sint 2 (some (-300))⟩, ⟨2, [99], .content 1 1 none⟩, ⟨4, [99], .content 1 4 (some 7)⟩,
+     ⟨3, [99], .content 2 1 none⟩, ⟨2, [99], .content 2 2 (some 300)⟩, ⟨5, [97], .array (some 1) 3 (some (1, 0)) none⟩,
+     ⟨4, [97], .array (some 2) 2 none none⟩, ⟨2, [97], .array none 0 (some (2, 5)) none⟩, ⟨31, [97], .array none 31 none none⟩]
+  cmp1 "propertyWrites" (props.map (fun p => (reprStr p, p)))
+    (fun x => match x.2.toSrcD with
+      | some sp => ((Generated.propertyWrites sp).map (fun p => leBytes p.1 p.2)).flatten
+      | none => [])
+    (fun x => x.2.encode)
   cmp1 "packSizes" small
     (fun c => (Generated.contentPackSize c 64, Generated.directoryPackSize c 64, Generated.manifestPackSize c 64, Generated.containerPackSize c 64))
     (fun c => (c + 37 + 64, c + 37 + 64, c + 37 + 64, c + 5 + 64))
